@@ -38,7 +38,17 @@ def run(ctx: Ctx) -> None:
         "writes row i as self[i][i+1:] (the UPPER_ROW walker's order). "
         "D18.4: the tour parser rejects duplicates and wrong sizes and "
         "stores node-1. Not decided: arbitrary line wrapping, the shipped "
-        "tours' lengths.")
+        "tours' lengths." " D18.5: a coordinate section "
+        "becomes the symmetric n x n matrix of dist_func over all pairs j < "
+        "i, rows validated (running index, dimension + 1 entries) and "
+        "counted, dispatched with (n_cities, 2, stream, function) only "
+        "under the matching EDGE_WEIGHT_TYPE. D18.6: every token of every "
+        "line is converted and handed on exactly once (CFG must-pass), "
+        "exactly n integral values are read. D18.7: header lines are split "
+        "at the first colon, the six keys store their value under `key == "
+        "KEY`, reach the section readers in the parameters they name, "
+        "sections are dispatched by title, only EOF ends the file."
+        )
     for rid, txt in (("D18.1", "distance functions == TSPLIB95"),
                      ("D18.2", "explicit format walkers"),
                      ("D18.3", "writer/reader agreement"),
@@ -49,6 +59,15 @@ def run(ctx: Ctx) -> None:
     _walkers(ctx)
     _writer(ctx)
     _tour_parser(ctx)
+    ctx.rule("D18.5", "coordinate section -> symmetric matrix of the "
+             "distance function over all pairs")
+    _points_to_matrix(ctx)
+    ctx.rule("D18.6", "every token is converted and handed on exactly once; "
+             "exactly n integers are read")
+    _number_reading(ctx)
+    ctx.rule("D18.7", "header keys reach the section readers in the "
+             "parameters they name")
+    _header(ctx)
     ctx.exhaustive = True
     ctx.assumptions += [
         "TSPLIB95 (Reinelt) distance definitions; GEO degrees are "
@@ -200,15 +219,10 @@ def _type_table(ctx: Ctx, formulas: dict[str, str]) -> None:
     fi = repo.func(MOD, "_matrix_from_node_coord_section")
     mod = fi.module
     n = 0
+    seen: set[str] = set()
     for node in ast.walk(fi.node):
         if not isinstance(node, ast.If):
             continue
-        ty = None
-        for c in ast.walk(node.test):
-            if isinstance(c, ast.Compare) and isinstance(
-                    c.left, ast.Name) and c.left.id == "edge_weight_type" \
-                    and isinstance(c.ops[0], ast.Eq):
-                ty = repo.const(mod, c.comparators[0])
         fn = None
         for s in node.body:
             if isinstance(s, ast.Assign) and isinstance(
@@ -216,15 +230,54 @@ def _type_table(ctx: Ctx, formulas: dict[str, str]) -> None:
                     s.targets[0].id == "dist_fun" and isinstance(
                     s.value, ast.Name):
                 fn = s.value.id
-        if ty is None or fn is None:
+        if fn is None:
             continue
         n += 1
-        ok = formulas.get(fn) == ty
+        # the branch is taken only if edge_weight_type == <that type>: the
+        # equality must be the test itself or a conjunct of it
+        conj = node.test.values if isinstance(
+            node.test, ast.BoolOp) and isinstance(
+            node.test.op, ast.And) else [node.test]
+        ty = None
+        for c in conj:
+            if isinstance(c, ast.Compare) and len(c.ops) == 1 and isinstance(
+                    c.ops[0], ast.Eq) and isinstance(
+                    c.left, ast.Name) and c.left.id == "edge_weight_type":
+                ty = repo.const(mod, c.comparators[0])
+        ok = ty is not None and formulas.get(fn) == ty
+        if ty is not None:
+            seen.add(ty)
         ctx.ob("D18.1", fi, node, ok,
                f"EDGE_WEIGHT_TYPE {ty!r} uses {fn}, which implements "
-               f"{formulas.get(fn, 'no TSPLIB formula')}",
-               construct=f"type table {ty}")
-    ctx.floor("edge_weight_types", n, 4)
+               f"{formulas.get(fn, 'no TSPLIB formula')}" if ty is not None
+               else f"{fn} (implementing {formulas.get(fn, '?')}) is chosen "
+               f"under `{ast.unparse(node.test)[:80]}`, which does not "
+               "require the matching EDGE_WEIGHT_TYPE",
+               construct=f"type table {formulas.get(fn, fn)}")
+    ctx.count("edge_weight_types", n)
+    miss = sorted(set(formulas.values()) - seen)
+    ctx.ob("D18.1", fi, fi.node, not miss and n >= 4,
+           "every implemented TSPLIB distance type has its branch" if
+           not miss and n >= 4 else
+           f"no branch selects a distance function for {miss}",
+           construct="type table complete")
+    # the matrix is computed only when a function was selected
+    calls = [c for c in ast.walk(fi.node) if isinstance(c, ast.Call)
+             and isinstance(c.func, ast.Name)
+             and "matrix_from_points" in c.func.id]
+    okg = False
+    for node in ast.walk(fi.node):
+        if isinstance(node, ast.If) and calls and any(
+                calls[0] is x for x in ast.walk(node)):
+            t = node.test
+            parts = [ast.unparse(v).replace(" ", "") for v in (
+                t.values if isinstance(t, ast.BoolOp) and isinstance(
+                    t.op, ast.And) else [t])]
+            okg = "dist_funisnotNone" in parts
+    ctx.ob("D18.1", fi, calls[0] if calls else fi.node, okg,
+           "the matrix is built only when a distance function was selected"
+           if okg else "the matrix can be built without a selected distance "
+           "function (or never)", construct="dispatch guard")
 
 
 # ------------------------------------------------------------------ D18.2
@@ -462,3 +515,464 @@ def _tour_parser(ctx: Ctx) -> None:
            if ok else f"tour parser checks missing: duplicate={dup} "
            f"size={size} zero_based={minus1} range={rng}",
            construct="tour parser checks")
+
+
+# ------------------------------------------------------------------ D18.5
+def _points_to_matrix(ctx: Ctx) -> None:
+    """NODE_COORD_SECTION -> symmetric matrix of dist_func over all pairs."""
+    repo = ctx.repo
+    fi = repo.func(MOD, "__matrix_from_points")
+    n_, dim_, stream_, df_ = fi.params
+    body = func_body(fi)
+
+    def src(n: ast.AST) -> str:
+        return ast.unparse(n).replace(" ", "")
+    problems: list[str] = []
+    rd = next((s for s in body if isinstance(s, ast.For)
+               and src(s.iter) == stream_), None)
+    if rd is None:
+        problems.append("the coordinate lines are not read from the stream")
+    else:
+        calls = [c for c in ast.walk(rd) if isinstance(c, ast.Call)
+                 and isinstance(c.func, ast.Name) and repo.resolve(
+                     fi.module, c.func.id) is repo.func(MOD, "__line_to_nums")]
+        row = None
+        if len(calls) == 1 and len(calls[0].args) == 2 and src(
+                calls[0].args[1]).endswith(".append"):
+            row = src(calls[0].args[1])[:-7]
+            if not isinstance(calls[0].args[0], ast.Name):
+                problems.append("the tokeniser does not receive the line")
+        else:
+            problems.append("each line is not tokenised into a row buffer")
+        idx = next((s.target.id for s in rd.body if isinstance(
+            s, ast.AugAssign) and isinstance(s.op, ast.Add) and isinstance(
+            s.target, ast.Name) and repo.const(fi.module, s.value) == 1),
+            None)
+        pre = body[:body.index(rd)]
+        if idx is None or not any(isinstance(s, (ast.Assign, ast.AnnAssign))
+                                  and src(s.targets[0] if isinstance(
+                                      s, ast.Assign) else s.target) == idx
+                                  and repo.const(fi.module, s.value) == 0
+                                  for s in pre):
+            problems.append("rows are not counted 1, 2, 3, ...")
+        if row is not None and idx is not None:
+            chk = next((s for s in rd.body if isinstance(s, ast.If) and s.body
+                        and isinstance(s.body[-1], ast.Raise)
+                        and row in src(s.test)), None)
+            want = {f"len({row})!=({dim_}+1)", f"len({row})!={dim_}+1",
+                    f"notisinstance({row}[0],int)", f"{row}[0]!={idx}"}
+            got = set()
+            if chk is not None and isinstance(chk.test, ast.BoolOp) and \
+                    isinstance(chk.test.op, ast.Or):
+                got = {src(v).replace("(notisinstance", "notisinstance")
+                       .rstrip(")") + (")" if "isinstance" in src(v) else "")
+                       for v in chk.test.values}
+                got = {g.replace("(len(", "len(") for g in got}
+            norm = {g.replace("(", "").replace(")", "") for g in got}
+            wantn = {w.replace("(", "").replace(")", "") for w in
+                     (f"len({row})!={dim_}+1",
+                      f"notisinstance({row}[0],int)", f"{row}[0]!={idx}")}
+            if norm != wantn:
+                problems.append(
+                    "a coordinate row is not rejected exactly when it has "
+                    f"not {dim_}+1 entries or its first entry is not the "
+                    "running integer index")
+            del want
+            app = [s for s in rd.body if isinstance(s, ast.Expr) and isinstance(
+                s.value, ast.Call) and src(s.value.func).endswith(".append")
+                and s.value.args and src(s.value.args[0]) == f"{row}[1:]"]
+            clr = [s for s in rd.body if isinstance(s, ast.Expr)
+                   and src(s.value) == f"{row}.clear()"]
+            if len(app) != 1 or len(clr) != 1 or rd.body.index(
+                    app[0]) > rd.body.index(clr[0]):
+                problems.append("the coordinates of a row (all but its "
+                                "index) are not stored before the buffer is "
+                                "reused")
+            coords = src(app[0].value.func)[:-7] if app else None
+            tot = [s for s in body if isinstance(s, ast.If) and s.body and
+                   isinstance(s.body[-1], ast.Raise) and src(s.test) in (
+                       f"{idx}!={n_}", f"{n_}!={idx}")]
+            if not tot:
+                problems.append("the number of rows is not compared with "
+                                "the announced number of cities")
+            # ---- the matrix
+            fill = next((s for s in body if isinstance(s, ast.For)
+                         and s is not rd), None)
+            zero = [s for s in body if isinstance(s, (ast.Assign,
+                                                      ast.AnnAssign))
+                    and isinstance(s.value, ast.Call) and src(
+                        s.value.func) == "np.zeros" and s.value.args
+                    and src(s.value.args[0]) == f"({n_},{n_})"]
+            if fill is None or len(zero) != 1 or coords is None:
+                problems.append("no n x n zero matrix filled from the "
+                                "coordinates")
+            else:
+                mname = src(zero[0].targets[0] if isinstance(
+                    zero[0], ast.Assign) else zero[0].target)
+                inner = next((s for s in fill.body if isinstance(s, ast.For)),
+                             None)
+                iv = fill.target.id if isinstance(fill.target, ast.Name) \
+                    else "?"
+                ok_l = src(fill.iter) == f"range({n_})" and inner is not \
+                    None and isinstance(inner.target, ast.Name) and src(
+                    inner.iter) in (f"range({iv})",)
+                if not ok_l:
+                    problems.append("the pairs are not enumerated as j < i "
+                                    "< n")
+                else:
+                    jv = inner.target.id
+                    env = {}
+                    for s in fill.body[:fill.body.index(inner)] + inner.body:
+                        if isinstance(s, (ast.Assign, ast.AnnAssign)) and \
+                                isinstance(s.targets[0] if isinstance(
+                                    s, ast.Assign) else s.target, ast.Name):
+                            env[(s.targets[0] if isinstance(s, ast.Assign)
+                                 else s.target).id] = src(s.value)
+                    dcall = [k for k, v in env.items()
+                             if v.startswith(df_ + "(")]
+                    ok_d = False
+                    if len(dcall) == 1:
+                        args = env[dcall[0]][len(df_) + 1:-1].split(",")
+                        res = sorted(env.get(a, a) for a in args)
+                        ok_d = res == sorted([f"{coords}[{iv}]",
+                                              f"{coords}[{jv}]"])
+                    if not ok_d:
+                        problems.append("the stored value is not dist_func("
+                                        "coordinates[i], coordinates[j])")
+                    else:
+                        st = sorted(src(s.targets[0]) for s in inner.body
+                                    if isinstance(s, ast.Assign) and isinstance(
+                                        s.targets[0], ast.Subscript)
+                                    and src(s.value) == dcall[0])
+                        if st != sorted([f"{mname}[{iv},{jv}]",
+                                         f"{mname}[{jv},{iv}]"]):
+                            problems.append(
+                                "the distance is not stored symmetrically "
+                                f"(stores: {st})")
+                    neg = [s for s in inner.body if isinstance(s, ast.If)
+                           and s.body and isinstance(s.body[-1], ast.Raise)
+                           and dcall and src(s.test) in (
+                               f"{dcall[0]}<0", f"0>{dcall[0]}")]
+                    if not neg:
+                        problems.append("negative distances are not "
+                                        "rejected (and only those)")
+                rets = [r for r in ast.walk(fi.node)
+                        if isinstance(r, ast.Return)]
+                if len(rets) != 1 or src(rets[0].value) != mname:
+                    problems.append("the filled matrix is not returned")
+    ctx.ob("D18.5", fi, fi.node, not problems,
+           "a coordinate section becomes an n x n matrix with m[i,j] = "
+           "m[j,i] = dist_func(point i, point j) for all j < i, rows "
+           "validated (index, dimension) and counted" if not problems else
+           "; ".join(problems), construct="coordinates to matrix")
+    # ---- call binding and coordinate dimension in the dispatcher
+    dp = repo.func(MOD, "_matrix_from_node_coord_section")
+    calls = [c for c in ast.walk(dp.node) if isinstance(c, ast.Call)
+             and isinstance(c.func, ast.Name) and repo.resolve(
+                 dp.module, c.func.id) is fi]
+    dims = [s for s in ast.walk(dp.node) if isinstance(s, ast.Assign)
+            and src(s.targets[0]) == "coord_dim"]
+    okb = len(calls) == 1 and not calls[0].keywords and [
+        src(a) for a in calls[0].args] == [dp.params[0], "coord_dim",
+                                           dp.params[-1], "dist_fun"] and \
+        bool(dims) and all(repo.const(dp.module, s.value) == 2 for s in dims)
+    ctx.ob("D18.5", dp, calls[0] if calls else dp.node, okb,
+           "the dispatcher passes (n_cities, 2, stream, distance function) "
+           "in this order" if okb else
+           "the dispatcher does not call __matrix_from_points(n_cities, "
+           "coord_dim = 2, stream, dist_fun)",
+           construct="dispatcher arguments")
+
+
+# ------------------------------------------------------------------ D18.6
+def _number_reading(ctx: Ctx) -> None:
+    """__read_n_ints / __line_to_nums hand on every number exactly once."""
+    from sa.cfg import CFG, calls_in
+    repo = ctx.repo
+
+    def src(n: ast.AST) -> str:
+        return ast.unparse(n).replace(" ", "")
+    fi = repo.func(MOD, "__read_n_ints")
+    problems: list[str] = []
+    body = func_body(fi)
+    res = next((src(s.targets[0] if isinstance(s, ast.Assign) else s.target)
+                for s in body if isinstance(s, (ast.Assign, ast.AnnAssign))
+                and isinstance(s.value, ast.List) and not s.value.elts), None)
+    app = next((s for s in body if isinstance(s, ast.FunctionDef)), None)
+    loop = next((s for s in body if isinstance(s, ast.For)), None)
+    if res is None or app is None or loop is None:
+        problems.append("__read_n_ints: result list / appender / loop not "
+                        "found")
+    else:
+        fwd = None
+        for a, d in zip(app.args.args[::-1], app.args.defaults[::-1]):
+            if src(d) == f"{res}.append":
+                fwd = a.arg
+        val = app.args.args[0].arg
+        cfg = CFG(app)
+        sinks = [n for n in cfg.nodes if n.kind == "stmt" and any(
+            isinstance(c.func, ast.Name) and c.func.id == fwd
+            for c in calls_in(n.ast))]
+        if fwd is None or not sinks:
+            problems.append("the appender does not forward to the result "
+                            "list")
+        else:
+            if cfg.can_reach_avoiding(cfg.entry, cfg.exit,
+                                      lambda n: n in sinks):
+                problems.append("a number can pass the appender without "
+                                "being stored")
+            for s in sinks:
+                c = next(c for c in calls_in(s.ast) if isinstance(
+                    c.func, ast.Name) and c.func.id == fwd)
+                a = src(c.args[0]) if c.args else "?"
+                if a != val:
+                    d = [x for x in ast.walk(app) if isinstance(
+                        x, (ast.Assign, ast.AnnAssign)) and src(
+                        x.targets[0] if isinstance(x, ast.Assign)
+                        else x.target) == a]
+                    eq = [x for x in ast.walk(app) if isinstance(x, ast.If)
+                          and x.body and isinstance(x.body[-1], ast.Raise)
+                          and src(x.test) in (f"{a}!={val}", f"{val}!={a}")]
+                    if len(d) != 1 or src(d[0].value) != f"int({val})" \
+                            or not eq:
+                        problems.append("a non-integer value is not "
+                                        "rejected before it is stored as "
+                                        "int")
+        first = loop.body[0] if loop.body else None
+        okc = isinstance(first, ast.Expr) and isinstance(
+            first.value, ast.Call) and isinstance(
+            first.value.func, ast.Name) and repo.resolve(
+            fi.module, first.value.func.id) is repo.func(
+            MOD, "__line_to_nums") and [src(a) for a in first.value.args] \
+            == [src(loop.target), app.name]
+        if not okc:
+            problems.append("not every line is tokenised into the appender")
+        brk = [s for s in loop.body if isinstance(s, ast.If) and any(
+            isinstance(x, ast.Break) for x in s.body)]
+        n_ = fi.params[0]
+        if len(brk) != 1 or src(brk[0].test) not in (
+                f"len({res})=={n_}", f"len({res})>={n_}"):
+            problems.append("reading does not stop when n numbers were "
+                            "read")
+        tail = [s for s in body if isinstance(s, ast.If) and s.body and
+                isinstance(s.body[-1], ast.Raise)]
+        if len(tail) != 1 or src(tail[0].test) != f"len({res})!={n_}":
+            problems.append("a wrong number of values is not rejected")
+        rets = [r for r in body if isinstance(r, ast.Return)]
+        if len(rets) != 1 or src(rets[0].value) != res:
+            problems.append("the list of numbers is not returned")
+    # ---- the tokeniser
+    tk = repo.func(MOD, "__line_to_nums")
+    coll = tk.params[1]
+    wl = next((s for s in func_body(tk) if isinstance(s, ast.While)), None)
+    if wl is None:
+        problems.append("__line_to_nums: scanning loop not found")
+    else:
+        cfg = CFG(tk.node)
+        head = next(n for n in cfg.nodes if n.ast is wl and n.kind == "join")
+        sinks = [n for n in cfg.nodes if n.kind == "stmt" and any(
+            isinstance(c.func, ast.Name) and c.func.id == coll
+            for c in calls_in(n.ast))]
+        parts = [s for s in ast.walk(wl) if isinstance(
+            s, (ast.Assign, ast.AnnAssign)) and isinstance(
+            s.value, ast.Subscript) and isinstance(
+            s.value.slice, ast.Slice)]
+        if len(parts) != 1:
+            problems.append("__line_to_nums: no single token slice")
+        else:
+            pn = src(parts[0].targets[0] if isinstance(parts[0], ast.Assign)
+                     else parts[0].target)
+            P = next(n for n in cfg.nodes if n.ast is parts[0])
+            # from the token to the next round only through one collector
+            if any(cfg.can_reach_avoiding(m, head, lambda n: n in sinks)
+                   for m, _ in P.succ):
+                problems.append("a token can be skipped without being "
+                                "handed to the collector")
+            for s in sinks:
+                c = next(c for c in calls_in(s.ast) if isinstance(
+                    c.func, ast.Name) and c.func.id == coll)
+                if pn not in {x.id for x in ast.walk(c)
+                              if isinstance(x, ast.Name)} and not any(
+                        isinstance(x, ast.Name) and x.id in {
+                            src(d.targets[0] if isinstance(d, ast.Assign)
+                                else d.target) for d in ast.walk(wl)
+                            if isinstance(d, (ast.Assign, ast.AnnAssign))
+                            and pn in src(d.value)} for x in ast.walk(c)):
+                    problems.append("the collector receives something "
+                                    "else than the value of the token")
+            lo, hi = parts[0].value.slice.lower, parts[0].value.slice.upper
+            adv = [s for s in wl.body if isinstance(s, ast.Assign)
+                   and lo is not None and hi is not None
+                   and src(s.targets[0]) == src(lo)
+                   and src(s.value) == src(hi)]
+            if len(adv) != 1 or wl.body[-1] is not adv[0]:
+                problems.append("the scan position is not moved behind the "
+                                "token: the loop cannot end")
+    ctx.ob("D18.6", fi, fi.node, not problems,
+           "every whitespace-separated token of every line is converted "
+           "and handed on exactly once; exactly n integral values are "
+           "collected (non-integral ones rejected) and returned"
+           if not problems else "; ".join(problems),
+           construct="number reading protocol")
+
+
+# ------------------------------------------------------------------ D18.7
+def _header(ctx: Ctx) -> None:
+    """_from_stream: `KEY : value` lines reach the section readers in the
+    parameter the key names; sections are dispatched by their title."""
+    repo = ctx.repo
+    fi = repo.func(MOD, "_from_stream")
+    mod = fi.module
+
+    def src(n: ast.AST) -> str:
+        return ast.unparse(n).replace(" ", "")
+    problems: list[str] = []
+    loop = next((s for s in func_body(fi) if isinstance(s, ast.For)), None)
+    if loop is None:
+        ctx.ob("D18.7", fi, fi.node, False, "no loop over the lines",
+               construct="header protocol")
+        return
+    # ---- key / value split at the first colon
+    defs = {}
+    for s in ast.walk(loop):
+        if isinstance(s, (ast.Assign, ast.AnnAssign)) and s.value is not None:
+            tg = s.targets[0] if isinstance(s, ast.Assign) else s.target
+            if isinstance(tg, ast.Name):
+                defs.setdefault(tg.id, []).append(s.value)
+    sep = next((k for k, v in defs.items() if any(
+        src(x).endswith(".find(':')") or src(x).endswith('.find(":")')
+        for x in v)), None)
+    line = None
+    if sep is None:
+        problems.append("lines are not split at their first colon")
+    else:
+        line = src(defs[sep][0]).split(".find(")[0]
+        okk = any(src(x) == f"{line}[:{sep}].strip()"
+                  for x in defs.get("key", []))
+        okv = any(src(x) == f"{line}[{sep}+1:].strip()"
+                  for x in defs.get("value", []))
+        if not okk or not okv:
+            problems.append("key / value are not the text before / after "
+                            "the colon (stripped)")
+    # ---- which variable holds the value of which key
+    var_of_key: dict[str, str] = {}
+    for s in ast.walk(loop):
+        if isinstance(s, ast.If) and isinstance(
+                s.test, ast.Compare) and len(s.test.ops) == 1 and isinstance(
+                s.test.ops[0], ast.Eq) and src(s.test.left) == "key":
+            k = repo.const(mod, s.test.comparators[0])
+            if not isinstance(k, str):
+                continue
+            for b in s.body:
+                if isinstance(b, (ast.Assign, ast.AnnAssign)) and \
+                        b.value is not None:
+                    tg = b.targets[0] if isinstance(b, ast.Assign) \
+                        else b.target
+                    if isinstance(tg, ast.Name) and tg.id.startswith(
+                            "the_") and "value" in {
+                            x.id for x in ast.walk(b.value)
+                            if isinstance(x, ast.Name)}:
+                        var_of_key[tg.id] = k
+                    if isinstance(tg, ast.Name) and tg.id.startswith(
+                            "the_") and isinstance(b.value, ast.Name) and \
+                            b.value.id == "value":
+                        var_of_key[tg.id] = k
+    ctx.count("header_keys", len(var_of_key))
+    want_keys = {"NAME", "TYPE", "DIMENSION", "EDGE_WEIGHT_TYPE",
+                 "EDGE_WEIGHT_FORMAT", "NODE_COORD_TYPE"}
+    if set(var_of_key.values()) != want_keys:
+        problems.append(
+            "not every header key stores its value under `key == KEY` "
+            f"(found {sorted(var_of_key.values())})")
+    # a key may occur once: the guard raises iff the variable is set already
+    for s in ast.walk(loop):
+        if isinstance(s, ast.If) and isinstance(
+                s.test, ast.Compare) and src(s.test.left) == "key":
+            inner = [b for b in s.body if isinstance(b, ast.If) and b.body
+                     and isinstance(b.body[-1], ast.Raise) and isinstance(
+                         b.test, ast.Compare) and isinstance(
+                         b.test.comparators[0], ast.Constant)
+                     and b.test.comparators[0].value is None]
+            for b in inner:
+                v = src(b.test.left)
+                if v in var_of_key and not isinstance(
+                        b.test.ops[0], ast.IsNot):
+                    problems.append(f"the first {var_of_key[v]} line is "
+                                    "rejected as a duplicate")
+    # the only way out of the line loop is the EOF line
+    for br in [x for x in ast.walk(loop) if isinstance(x, ast.Break)]:
+        par = next((i_ for i_ in ast.walk(loop) if isinstance(i_, ast.If)
+                    and br in i_.body), None)
+        if par is None or not (isinstance(par.test, ast.Compare) and len(
+                par.test.ops) == 1 and isinstance(
+                par.test.ops[0], ast.Eq) and repo.const(
+                mod, par.test.comparators[0]) == "EOF"):
+            problems.append("reading the file is abandoned before the EOF "
+                            f"line (break at line {br.lineno})")
+    # ---- section dispatch
+    want_sections = {"NODE_COORD_SECTION": "_matrix_from_node_coord_section",
+                     "EDGE_WEIGHT_SECTION": "_matrix_from_edge_weights"}
+    found = {}
+    for s in ast.walk(loop):
+        if isinstance(s, ast.If) and isinstance(
+                s.test, ast.Compare) and len(s.test.ops) == 1 and isinstance(
+                s.test.ops[0], ast.Eq) and line is not None and src(
+                s.test.left) == line:
+            title = repo.const(mod, s.test.comparators[0])
+            for c in ast.walk(ast.Module(body=s.body, type_ignores=[])):
+                if isinstance(c, ast.Call) and isinstance(
+                        c.func, ast.Name) and c.func.id in \
+                        want_sections.values():
+                    found[title] = c
+    for title, fn in want_sections.items():
+        c = found.get(title)
+        if c is None or c.func.id != fn:
+            problems.append(f"section {title!r} is not read by {fn}")
+            continue
+        callee = repo.func(MOD, fn)
+        if c.keywords or len(c.args) != len(callee.params):
+            problems.append(f"{fn} is not called positionally with all its "
+                            "parameters")
+            continue
+        for a, p in zip(c.args, callee.params):
+            if p == "stream":
+                if src(a) != fi.params[0]:
+                    problems.append(f"{fn} does not continue reading the "
+                                    "same stream")
+                continue
+            v = src(a)
+            k = var_of_key.get(v)
+            alias = {"n_cities": "dimension"}
+            if k is None or k.lower() != alias.get(p, p):
+                problems.append(
+                    f"{fn}: parameter `{p}` receives `{v}`, which holds the "
+                    f"value of key {k!r}")
+    # ---- end of file and the constructed instance
+    eof = [s for s in ast.walk(loop) if isinstance(s, ast.If) and isinstance(
+        s.test, ast.Compare) and line is not None and src(
+        s.test.left) == line and isinstance(
+        s.test.ops[0], ast.Eq) and repo.const(
+        mod, s.test.comparators[0]) == "EOF" and any(
+        isinstance(x, ast.Break) for x in s.body)]
+    if not eof:
+        problems.append("reading does not stop at the EOF line")
+    mk = [c for c in ast.walk(fi.node) if isinstance(c, ast.Call)
+          and src(c.func) == "Instance"]
+    okm = len(mk) == 1 and len(mk[0].args) == 3 and var_of_key.get(
+        src(mk[0].args[0])) == "NAME" and src(mk[0].args[2]) in {
+        src(t.targets[0]) for t in ast.walk(loop) if isinstance(
+            t, ast.Assign) and isinstance(t.value, ast.Call)
+        and isinstance(t.value.func, ast.Name)
+        and t.value.func.id in want_sections.values()}
+    if not okm:
+        problems.append("the instance is not built from the NAME value and "
+                        "the matrix of the data section")
+    ctx.ob("D18.7", fi, loop, not problems,
+           "`KEY : value` lines are split at the first colon; DIMENSION, "
+           "EDGE_WEIGHT_TYPE, EDGE_WEIGHT_FORMAT and NODE_COORD_TYPE reach "
+           "the section readers in the parameters of these names; "
+           "NODE_COORD_SECTION / EDGE_WEIGHT_SECTION are read by their "
+           "readers from the same stream; EOF ends the file; the instance "
+           "is Instance(NAME, bound, matrix)" if not problems else
+           "; ".join(dict.fromkeys(problems)),
+           construct="header protocol")
